@@ -181,6 +181,9 @@ def grammar(facts, node, mode):
             return c
         if shape(th) == shape(el):
             return c + list(th)                           # both branches put the same items on the wire
+        c0 = strip(node["c"])
+        if (c0.get("k") == "Bin" and c0.get("op") == "!=") or (c0.get("k") == "Un" and c0.get("op") == "!"):
+            th, el = el, th                               # `if a != b {X} else {Y}`  ==  `if a == b {Y} else {X}`
         return c + [("alt", guard_names(node["c"]), (th, el))]
     if k == "Match":
         s = grammar(facts, node["e"], mode)
@@ -651,12 +654,14 @@ def _sig(facts, defs, e, depth=0):
 def _width_args(facts, p):
     """signatures of the quantities whose byte width (`get_u64_limit(Q)`) the function uses"""
     from facts import Defs as _Defs
-    body = facts.hir[p]
+    body = facts.inlined(p) if hasattr(facts, "inlined") else facts.hir[p]      # width helpers are read in place
     defs = _Defs(body)
     out = []
     for x in walk(body):
         if x.get("k") == "Call" and (callee(x) or {}).get("name") == "get_u64_limit" and x.get("args"):
             out.append((_sig(facts, defs, x["args"][0]), x))
+        elif x.get("k") == "Inl" and x.get("name") == "get_u64_limit" and (x.get("orig") or {}).get("args"):
+            out.append((_sig(facts, defs, x["orig"]["args"][0]), x))
     return out
 
 
@@ -709,5 +714,5 @@ def run_width(facts, rep):
         else:
             rep.unresolved(R, k, "the members compute widths from differently written quantities: %s" %
                            "; ".join("%s: %s" % (r_, sorted(s_)) for r_, s_ in sorted(sets.items())), facts.loc(g["w"]))
-    rep.floor(R, "groups packing limited-width words", n, 2)
+    rep.floor(R, "groups packing limited-width words", n, 1)
     return n
